@@ -209,6 +209,9 @@ pub fn ivs_driver(data: &[u8], _ctx: &[Vec<u8>], a: [u32; 3], w: &mut Walker) {
 // ------------------------------------------------------------------------------------------
 
 pub fn coverage_obs(c: &CoverageTable, w: &mut Walker) {
+    if crate::extarg::LAYOUT_HOOK.with(|h| h.get()) {
+        crate::extarg::coverage_group(c, w);
+    }
     let mut n = 0u64;
     let mut first: Vec<u16> = vec![];
     // a format-2 table may legitimately enumerate 65536 ids per range record (output-bound by
@@ -245,6 +248,9 @@ pub fn coverage_obs(c: &CoverageTable, w: &mut Walker) {
 }
 
 pub fn classdef_obs(c: &ClassDef, w: &mut Walker) {
+    if crate::extarg::LAYOUT_HOOK.with(|h| h.get()) {
+        crate::extarg::classdef_group(c, w);
+    }
     let mut n = 0u64;
     let mut first: Vec<u16> = vec![];
     let lim = 512u64;
